@@ -234,7 +234,7 @@ def _positions(ds, recipe):
     return e.transpose(*(lead + [d for d in pos_dims if d in e.dims] + spec_dims)), lead, [d for d in pos_dims if d in e.dims], spec_dims
 
 
-def compare_roundtrip(fmt, recipe, exp, got):
+def compare_roundtrip(fmt, recipe, exp, got, _depth=0):
     """None if `got` equals `exp` to the resolution of the format, else (class, detail)."""
     base = fmt.split("_")[0]
     if "efth" not in got:
@@ -257,7 +257,15 @@ def compare_roundtrip(fmt, recipe, exp, got):
     ge = ge.squeeze([d for d in ge.dims if d not in want_dims], drop=True)
     for d in ee.dims:
         if ge.sizes[d] != ee.sizes[d]:
-            return "count-" + d, f"{ge.sizes[d]} values along {d} read back, {ee.sizes[d]} written"
+            first = ("count-" + d, f"{ge.sizes[d]} values along {d} read back, {ee.sizes[d]} written")
+            if d == "time" and 0 < ge.sizes[d] < ee.sizes[d] and _depth == 0:
+                # fewer times than written: what did come back must still be right (so that a different
+                # defect is not hidden behind a known 'missing times' finding)
+                k = ge.sizes[d]
+                sub = compare_roundtrip(fmt, recipe, exp.isel(time=slice(0, k)), got, _depth=1)
+                if sub:
+                    return sub[0] + "+count-time", f"{first[1]}; and among the times that did come back: {sub[1]}"
+            return first
     ge = ge.transpose(*ee.dims)
     # ---- coordinates ------------------------------------------------------------------------
     ftol = {"swan": 5.1e-6, "octopus": 5.1e-8, "funwave": 5.1e-6}.get(base, 0.0)
